@@ -118,8 +118,10 @@ func runParamsCase(t *rapid.T, r *rec.Recorder) {
 	// pool balances
 	for _, d := range []string{"atele", "acoin", "bcoin", "ibc/27394FB092D2ECCD56123C74F36E4C1F926001CEADA9CA97EA622B25F41E5EB2", "abc", strings.Repeat("d", 128), "UPPER", "a/b-c"} {
 		if chance(t, "fund?", 45) {
-			amt := []int64{1, 5, 1000, 1000000}[rapid.IntRange(0, 3).Draw(t, "fund")]
-			coins := sdk.NewCoins(sdk.NewInt64Coin(d, amt))
+			// pool sizes from one unit over real-chain scale (1e18 base units per coin) to the int64/uint64 limits and beyond
+			amts := []string{"1", "5", "1000", "1000000", "100000000000000000000", "9223372036854775807", "9223372036854775808", "18446744073709551616", "1" + strings.Repeat("0", 60)}
+			amt, _ := sdk.NewIntFromString(amts[rapid.IntRange(0, len(amts)-1).Draw(t, "fund")])
+			coins := sdk.NewCoins(sdk.NewCoin(d, amt))
 			kit.Must(a.BankKeeper.MintCoins(ctx, aggregatetypes.ModuleName, coins), "mint")
 			kit.Must(a.BankKeeper.SendCoinsFromModuleToModule(ctx, aggregatetypes.ModuleName, rvestingtypes.ModuleName, coins), "fund pool")
 			poolShape = append(poolShape, clip(d, 6))
